@@ -2,15 +2,17 @@
 """keep_mutant.py <ID> <mN> : copy a confirmed seeded change into /verif/seeded/<ID>-<mN>/ with meta.json"""
 import sys, os, json, shutil
 pid, m = sys.argv[1], sys.argv[2]
-src = '/tmp/mut-%s-out/%s' % (pid, m)
+pre = os.environ.get('MUTPREFIX', 'mut')
+suffix = os.environ.get('MUTSUFFIX', '')
+src = '/tmp/%s-%s-out/%s' % (pre, pid, m)
 conf = json.load(open(os.path.join(src, 'confirm.json')))
 assert conf['applies'] and conf['suite_exit'] == 0 and conf['suite_passed'] == 80 and conf['demo_clean_exit'] == 0 and conf['demo_patched_exit'] != 0, conf
-dst = '/verif/seeded/%s-%s' % (pid, m)
+dst = '/verif/seeded/%s-%s%s' % (pid, m, suffix)
 os.makedirs(dst, exist_ok=True)
 for f in ('patch.diff', 'demo.rs', 'NOTES.md'):
     shutil.copy(os.path.join(src, f), os.path.join(dst, f))
 notes = open(os.path.join(src, 'NOTES.md')).read()
-meta = {'id': '%s-%s' % (pid, m), 'breaks_property': pid,
+meta = {'id': '%s-%s%s' % (pid, m, suffix), 'breaks_property': pid,
         'needs_to_manifest': 'see NOTES.md (written by the sub-agent that produced the change)',
         'confirmed_by': 'tools/confirm_mutant.sh in a scratch worktree: git apply --check; cargo test --workspace --lib --tests (80 passed, 0 failed) with the patch; '
                         'demo.rs as join/tests/verif_demo.rs passes on the clean tree and fails with the patch',
